@@ -250,6 +250,32 @@ pub fn scenarios(tier: Tier, which: &str) -> Vec<LineScn> {
 			}
 		}
 		if which == "C03" {
+			// a second send with the same payment id at every point while the first is pending
+			for (pol, pn) in [(ClaimPolicy::Claim, "claim"), (ClaimPolicy::Fail, "fail")] {
+				for nodes in [2usize, 3] {
+					if !th && nodes == 3 && pn == "claim" {
+						continue;
+					}
+					let hops = if nodes == 2 { vec![(1, 0)] } else { vec![(1, 0), (2, 1)] };
+					v.push(LineScn {
+						name: format!("{}-{}-{}-resend", n, if nodes == 2 { "ab" } else { "abc" }, pn),
+						ct,
+						nodes,
+						ops: vec![
+							Op::Send { from: 0, hops: hops.clone(), amount_msat: 50_000_000, policy: pol.clone() },
+							Op::Resend { pay: 0, hops: hops.clone() },
+						],
+						ops_first: false,
+						dev: Deviations { reorder: Some(1), early_op: Some(0), ..Deviations::default() },
+						k: 1,
+						crash_nodes: vec![],
+						async_from_start: vec![],
+						max_disconnects: 0,
+						on_chain: false,
+						slow_user: vec![],
+					});
+				}
+			}
 			// direct payments with mixed outcomes
 			v.push(LineScn {
 				name: format!("{}-ab-mixed", n),
